@@ -132,7 +132,10 @@ Proof.
   destruct (at_event _ _ _ _ _ R E) as (v & v' & Hh & St).
   destruct (cm_send_facts _ _ _ _ _ _ _ _ _ Hh St Hm) as (HTc & _ & _ & Hl & Hsub & Hts & Hmin & Hwm & _ & Hak).
   split; [exact Hts|]. split; [| split].
-  - intros r' ks' m o Hi. pose proof (t_minc _ _ _ HTc _ _ _ _ Hi). lia.
+  - intros r' ks' m o Hi [k [Hk1 Hk2]].
+    assert (m <= cn (vgetc v T) FMinc).
+    { apply (t_minc _ _ _ HTc _ _ _ _ Hi). right. exists k. split; [exact Hk1 |]. rewrite Hl, <- lock_keys_of_agrees. exact Hk2. }
+    lia.
   - intros pre1 pre2 Hd Hno t Ht.
     destruct (t_call _ _ _ HTc _ _ _ Hd Hno) as (Hc & Hcz & Hw).
     assert (Hcausal : cn (vgetc v T) FCausal = 0).
@@ -219,11 +222,27 @@ Proof.
   cbn [vstep] in St. destruct St as [Hg _]. cbn [told_guard] in Hg.
   pose proof (A T) as HTc. destruct (t_muts _ _ _ HTc _ _ Hm) as (Hh & Hp & Hl).
   apply andb_true_iff in Hg. destruct Hg as [Hg _]. apply andb_true_iff in Hg. destruct Hg as [_ Hg].
-  assert (Hcpw : commit_point_pw (vgetc v T) = true).
-  { unfold commit_point_pw. apply orb_true_iff.
-    destruct Hcp as (r & p' & ks & a & o & m & f & secs & Hi & [-> | ->]); [left | right]; apply fb_true.
-    - eapply t_trieda2; eauto.
-    - eapply t_tried12; eauto. }
+  assert (Hcpw : cp_active (vgetc v T) = true).
+  { destruct Hcp as [(r & p' & ks & a & o & m & f & secs & Hi) [[Hall Hno] | [Hall Hno]]].
+    - (* async commit in force *)
+      destruct (Hall _ _ _ _ _ _ _ _ Hi) as [-> ->].
+      assert (Hta : cn (vgetc v T) FTriedA <> 0) by (eapply t_trieda2; eauto).
+      assert (Hfb : cn (vgetc v T) FFb = 0).
+      { destruct (N.eq_dec (cn (vgetc v T) FFb) 0) as [Hz | Hz]; [exact Hz | exfalso].
+        destruct (t_fb _ _ _ HTc Hz) as [(r2 & p2 & ks2 & o3 & m3 & f3 & secs3 & Hi2) | [(r2 & ks2 & o3 & Hi2) | (r2 & p2 & ks2 & a3 & m3 & f3 & secs3 & Hi2)]].
+        - destruct (Hall _ _ _ _ _ _ _ _ Hi2) as [Hx _]. discriminate.
+        - exact (Hno _ _ _ Hi2).
+        - destruct (Hall _ _ _ _ _ _ _ _ Hi2) as [_ Hx]. discriminate. }
+      unfold cp_active, async_kept. apply fb_true in Hta. apply fb_false in Hfb. rewrite Hta, Hfb. reflexivity.
+    - (* 1PC in force *)
+      pose proof (Hall _ _ _ _ _ _ _ _ Hi) as ->.
+      assert (Ht1 : cn (vgetc v T) FTried1 <> 0) by (eapply t_tried12; eauto).
+      assert (Hfb1 : cn (vgetc v T) FFb1 = 0).
+      { destruct (N.eq_dec (cn (vgetc v T) FFb1) 0) as [Hz | Hz]; [exact Hz | exfalso].
+        destruct (t_fb1 _ _ _ HTc Hz) as [(r2 & p2 & ks2 & a3 & m3 & f3 & secs3 & Hi2) | (r2 & ks2 & m3 & Hi2)].
+        - pose proof (Hall _ _ _ _ _ _ _ _ Hi2). discriminate.
+        - exact (Hno _ _ _ Hi2). }
+      unfold cp_active, onepc_on. apply fb_true in Ht1. apply fb_false in Hfb1. rewrite Ht1, Hfb1. apply orb_true_r. }
   rewrite Hcpw in Hg. cbn [negb orb] in Hg. unfold err_ok in Hg.
   apply fb_true in Hh. rewrite Hh in Hg. cbn [negb orb] in Hg.
   apply existsb_exists in Hg. destruct Hg as (k & Hk & Heq). apply N.eqb_eq in Heq.
